@@ -11,7 +11,7 @@
 //     B<f><s>   the library's simulate_faulty_behaviour switch with its two internal coins (Flip's, Share's) steered to f, s
 //               (s=1: wrong sub-shares to everybody => disqualified;  s=0: opens a_i+1 (and a'_i+1 if f=1) => reconstruction)
 //     Wa<m>/Wy<m>  wrong opening: the broadcast of a_i resp. a'_i in step 2 is replaced (at the sender's r-send, i.e. consistently
-//               for all receivers) by catalogue value m in {v+1, 2v+3, 0, 1, q, v+q, p-1, -v}  => reconstruction of the COMMITTED a_i
+//               for all receivers) by catalogue value m in {v+1, 2v+3, 0, 1, q, v+q, p-1, -v, v-q}  => reconstruction of the COMMITTED a_i
 //     X         silence after the commitment phase: the party crashes at the moment it would open => reconstruction
 //     Z         crashed from the start (never sends anything) => disqualified
 //     N<k><m>   commitment C_ik replaced by a non-member of G (k=0: {0, p-1, p, non-residue, C+p}; k=t: {p-1}) => disqualified
@@ -46,7 +46,7 @@ static Dev mk(Kind k, int a, int b, const std::string &nm) { Dev d; d.kind = k, 
 
 struct Crash : public std::runtime_error { Crash() : std::runtime_error("scripted crash of a faulty party") {} };
 
-static const char *WM[] = { "v+1", "2v+3", "0", "1", "q", "v+q", "p-1", "-v" };
+static const char *WM[] = { "v+1", "2v+3", "0", "1", "q", "v+q", "p-1", "-v", "v-q" };
 static void mutate(mpz_ptr out, int m, mpz_srcptr v, const Group &G)
 {
 	switch (m)
@@ -59,6 +59,7 @@ static void mutate(mpz_ptr out, int m, mpz_srcptr v, const Group &G)
 		case 5: mpz_add(out, v, G.q); break;
 		case 6: mpz_sub_ui(out, G.p, 1); break;
 		case 7: mpz_neg(out, v); break;
+		case 8: mpz_sub(out, v, G.q); break;   // the other representative of the same residue: opens the commitment as well
 	}
 }
 // non-members of G: 0, p-1 (order 2), p, an element of order not dividing q, C+p
@@ -307,6 +308,9 @@ int main(int argc, char **argv)
 	full.push_back(mk(K_CRASH_START, 0, 0, "Z"));
 	for (int m = 0; m < 5; m++) full.push_back(mk(K_NONMEMBER, 0, m, "N0." + str(m)));
 	full.push_back(mk(K_NONMEMBER, -1, 1, "Nt.1"));
+	// appended (the indices of `reduced` below refer to the list above): opening with value - q
+	full.push_back(mk(K_WRONG_A, 8, 0, std::string("Wa(") + WM[8] + ")"));
+	full.push_back(mk(K_WRONG_Y, 8, 0, std::string("Wy(") + WM[8] + ")"));
 	{ int idx[] = {0, 1, 2, 4, 8, 11, 12, 19, 20, 21, 22, 23, 27}; for (size_t k = 0; k < sizeof idx / sizeof idx[0]; k++) reduced.push_back(full[idx[k]]); }
 	uint64_t execs = 0, ticks = 0, msgs = 0, muts = 0, crashes = 0, recons = 0;
 	double slowest = 0;
